@@ -190,7 +190,8 @@ PROPS = {
                 ">= 1 conn existed; lmux case = maxOnlineA x op sequence (dial, takeA/B with blocked consumers, dec, stop) on a "
                 "real ListenerMux; hsim case = nbhttp I/O mode x forced schedule (conn gated inside OnOpen, release, peer close, "
                 "conn accepted after the shutdown flag, request handler held while the conn is closed, stop|shutdown, wait); "
-                "ioblock case = Stop racing a busy read task of the default IO task pool (ET + AsyncReadInPoller), 8 attempts",
+                "ioblock case = Stop racing a read hand-over to the default IO task pool (ET + AsyncReadInPoller): the poller is held "
+                "inside TaskPool.Go by the shim's atomic hook until Stop has stopped the pool (state established by probing)",
         "assumptions": ["the Async queue is a plain FIFO list in the model; that timer.Async is one (FIFO, exactly once, completes) is "
                         "C19's c19_async_fifo_exactly_once / c19_async_completes on ExecQ with Kind.async",
                         "HttpStop: closeAllConns is one atomic step (whole loop under engine.mux; its single Close calls touch "
